@@ -5,15 +5,20 @@ import Proofs.Blockwise.C05Upload
 
 Model: `AiocoapModel/Blockwise/{BlockOptC,Client,RefServer}.lean` — the client machine
 `start`/`step` (run by the driver as `runClient` over recorded responses and as `transfer`
-against the reference server).  Three groups of theorems:
+against the reference server).  Four groups of theorems:
 
-* **wire** (`C05_block1_*`, `C05_block2_szx_never_grows`): against EVERY response sequence
-  (conforming or not) the Block1 requests the client emits are an in-order, gap-free,
-  duplicate-free cut of the payload, and the size exponents of its Block2 requests never grow;
-* **upload complete** (`C05_ok_upload_complete`, `C05_ok_request_body_intact`): a run that yields
-  a response has emitted the final Block1 request — unless the SERVER ended the upload early in
-  one of two exactly described ways — so the hypothesis of `C05_block1_reassembles` is discharged
-  for such runs instead of assumed;
+* **wire** (`C05_block1_*`, `C05_block2_szx_never_grows`, `C05_block2_szx_below_hint`): against
+  EVERY response sequence (conforming or not) the Block1 requests the client emits are an
+  in-order, gap-free, duplicate-free cut of the payload, and the size exponents of the Block2
+  options of its requests never grow — from the application's size hint `block2=(0, False, szx)`
+  on the first request(s), if there is one, through all requests of the Block2 loop;
+* **upload complete** (`C05_ok_upload_complete`, `C05_ok_request_body_intact`,
+  `C05_success_upload_complete`, `C05_success_request_body_intact`): a run that yields a response
+  has emitted the final Block1 request — unless the SERVER FAILED the upload early (an
+  unsuccessful code, in one of two exactly described shapes) — and a run that yields a SUCCESSFUL
+  response has emitted it (the one way around it is the single-response exemption of
+  `C05_ok_is_server_body`), so the hypothesis of `C05_block1_reassembles` is discharged for such
+  runs instead of assumed;
 * **conforming server** (`C05_transfer_*`): against the RFC 7959 reference server `Srv`, which
   may pick any size exponent in every exchange, the server records exactly the payload and the
   client returns exactly the server's representation — for all payloads, representations,
@@ -38,11 +43,12 @@ theorem C05_reduced_to_keeps_offset (b : BlockOpt) (m : Nat) :
 
 -- Block1 on the wire, against any server --------------------------------------------------------
 
-/-- the requests of the upload phase of a run: those without a Block2 option -/
+/-- the requests of the upload phase of a run: those that do not ask for a later block of the
+response (no Block2 option, or the application's size hint: block number 0) -/
 def block1Requests (cfg : Cfg) (resps : List Resp) : List Req := b1Reqs (runClient cfg resps).1
 
 theorem block1_cut (cfg : Cfg) (h6 : cfg.szx0 ≤ 6) (resps : List Resp) :
-    Cut cfg.payload 0 cfg.szx0 (block1Requests cfg resps) := by
+    Cut cfg.payload (hintOpt cfg) 0 cfg.szx0 (block1Requests cfg resps) := by
   obtain ⟨cur, h1, h2⟩ := enterB1_of_inv (B1Inv.start h6)
   have := cut_go (B1Inv.start h6) h1 resps
   simp only [Nat.zero_mul] at this
@@ -165,6 +171,15 @@ inductive Misbehaves (cfg : Cfg) : Phase → Resp → Prop
   final one) -/
   | continueWithoutBlock1 {st cur r} : r.block1 = none → r.code = codeContinue →
       Misbehaves cfg (.b1 st cur) r
+  /-- a SUCCESSFUL code (2.01, 2.04, 2.05 …) without a Block1 option in answer to a NON-final
+  block: Block1 is a critical option, a server that does not know it answers 4.02 and one that
+  does echoes it; the server has seen only the first block(s) of the body -/
+  | successWithoutBlock1 {st cur r} : r.block1 = none → isSuccessful r.code = true →
+      (sentBlock1 st cur).more = true → Misbehaves cfg (.b1 st cur) r
+  /-- the response ending the upload carries a first Block2 block that is larger than the block
+  size the request asked for in its own Block2 option (the application's size hint) -/
+  | firstBlockLarger {st cur r b q} : step cfg (.b1 st cur) r = completeBlock2 cfg cur r →
+      r.block2 = some b → cur.block2 = some q → q.szx < b.szx → Misbehaves cfg (.b1 st cur) r
   /-- the response ending the upload carries a first Block2 block whose number is not 0 —
   WHATEVER its more flag (a "last block" that is not the first is only the tail of a body) -/
   | firstBlockNumber {st cur r b} : step cfg (.b1 st cur) r = completeBlock2 cfg cur r →
@@ -208,6 +223,14 @@ theorem step_misbehaves {cfg : Cfg} {ph : Phase} {r : Resp} (h : Misbehaves cfg 
       rw [if_neg hn]
       simp [hs, this]
   | continueWithoutBlock1 ha hc => exact ⟨.unexpectedBlock1, step_b1_none_continue ha hc⟩
+  | successWithoutBlock1 ha hc hs => exact ⟨.unexpectedBlock1, step_b1_none_success ha hc hs⟩
+  | @firstBlockLarger st cur r b q hst hb hq hlt =>
+    rw [hst, completeBlock2_some hb]
+    by_cases hs : b.start ≠ 0
+    · exact ⟨.unexpectedBlock2, by rw [if_pos hs]⟩
+    · refine ⟨.unexpectedBlock2, ?_⟩
+      rw [if_neg hs, if_pos]
+      simp [BwClient.szxGrows, hq, hlt]
   | @szxGrows t asm cur r b q hb hq hlt =>
     refine ⟨.unexpectedBlock2, ?_⟩
     rw [step_b2_some hb, if_pos]
@@ -221,6 +244,9 @@ theorem step_misbehaves {cfg : Cfg} {ph : Phase} {r : Resp} (h : Misbehaves cfg 
     by_cases hs : b.start ≠ 0
     · exact ⟨.unexpectedBlock2, by rw [if_pos hs]⟩
     · rw [if_neg hs]
+      by_cases hg : BwClient.szxGrows cur b = true
+      · exact ⟨.unexpectedBlock2, by rw [if_pos hg]⟩
+      rw [if_neg hg]
       by_cases hn : b.num ≠ 0
       · exact ⟨.unexpectedBlock2, by simp [hm, hn]⟩
       · exact ⟨.unexpectedBlock2, by simp [hm, hbad]⟩
@@ -274,8 +300,10 @@ theorem C05_error_is_final (cfg : Cfg) (pre : List Resp) (r : Resp) (suf : List 
 
 /-- **C05 (misbehaviour ⇒ error, never a body).** After ANY history of responses, a response that
 acknowledges the wrong block number, sets the more flag / 2.31 on the final acknowledgement,
-is a 2.31 Continue without a Block1 option (to whatever block), carries a Block2 block with a
-larger size exponent than the request asked for,
+is a 2.31 Continue without a Block1 option (to whatever block), is a SUCCESSFUL response without
+a Block1 option to a non-final block, carries a Block2 block with a larger size exponent than the
+request it answers asked for (also the FIRST block, when the application's request carried a
+size hint),
 starts the download with a block whose number is not 0 (with or without the more flag),
 carries a payload whose length does not fit its Block2 option, does not continue where the body
 received so far ends (gap, repetition, unscaled number), carries a different response code than
@@ -336,19 +364,18 @@ theorem C05_ok_is_server_body_blockwise (cfg : Cfg) (pre : List Resp) (first : R
 /-- **C05 (a response means the upload was completed — exact exceptions).** Against ANY response
 sequence: when the request yields a response, the final Block1 request (the unfragmented request,
 or the block without the more flag, which by `C05_block1_blocks` reaches the end of the payload)
-was emitted — unless the SERVER ended the upload itself: its response `e` to a NON-final block
-(after the history `pre`)
+was emitted — unless the SERVER FAILED the upload itself: its response `e` to a NON-final block
+(after the history `pre`) had an UNSUCCESSFUL code (4.08, 4.13, 5.00 …) and
 
-* carried no Block1 option at all and another code than 2.31 (the server answered the block as
-  if it were the whole request; aiocoap: "Block1 option completely ignored by server, assuming it
-  knows what it is doing"), or
-* acknowledged the block with the more flag cleared and an UNSUCCESSFUL code (4.08, 4.13, …),
+* carried no Block1 option at all, or
+* acknowledged the block with the more flag cleared,
 
-and the client took `e` for the (first block of the) result. Such a server is not a conforming
-RFC 7959 server, so the property's clause about "the body a conforming server reassembles" does
-not apply; what the caller gets is then the server's own answer (`C05_ok_is_server_body` with
-`first := e`: its hypothesis `hends` is the last conjunct here). In particular a 2.31 Continue
-can never be taken for the result of an upload (false before the fix in `BlockwiseRequest._run`). -/
+and the client took `e` for the (first block of the) result: the request failed, and the caller
+is told so (`C05_ok_is_server_body` with `first := e`: its hypothesis `hends` is the last
+conjunct here). A SUCCESSFUL code without a Block1 option to a non-final block — aiocoap's former
+"Block1 option completely ignored by server, assuming it knows what it is doing", which reported
+an upload as successful of which the server had seen one block — is no exception any more (false
+before the fix in `BlockwiseRequest._run`; `Misbehaves.successWithoutBlock1`), nor is a 2.31. -/
 theorem C05_ok_upload_complete (cfg : Cfg) (h6 : cfg.szx0 ≤ 6) (resps : List Resp) (o : Body)
     (hok : (runClient cfg resps).2 = .ok o) :
     (∃ r ∈ block1Requests cfg resps, FinalReq r) ∨
@@ -362,9 +389,10 @@ theorem C05_ok_upload_complete (cfg : Cfg) (h6 : cfg.szx0 ≤ 6) (resps : List R
   exact ok_upload_go resps (B1Inv.start h6) h1 o hok
 
 /-- **C05 (request body intact whenever a response is returned).** `C05_block1_reassembles` with
-its hypothesis discharged: if the request yields a response and the server did not end the upload
-early (no response to a non-final block has one of the two shapes of `EndsUploadEarly`), the
-reference reassembly of the emitted Block1 requests is exactly the payload handed to the API. -/
+its hypothesis discharged: if the request yields a response and the server did not fail the upload
+early (no response to a non-final block has one of the two shapes of `EndsUploadEarly`, both with
+an unsuccessful code), the reference reassembly of the emitted Block1 requests is exactly the
+payload handed to the API. -/
 theorem C05_ok_request_body_intact (cfg : Cfg) (h6 : cfg.szx0 ≤ 6) (resps : List Resp) (o : Body)
     (hok : (runClient cfg resps).2 = .ok o)
     (hsrv : ∀ pre e suf st cur, resps = pre ++ e :: suf →
@@ -375,14 +403,81 @@ theorem C05_ok_request_body_intact (cfg : Cfg) (h6 : cfg.szx0 ≤ 6) (resps : Li
   · exact C05_block1_reassembles cfg h6 resps h
   · exact absurd h4 (hsrv pre e suf st cur h1 h2 h3)
 
-/-- **C05 (size exponent never grows, Block2 requests).** Against ANY response sequence the size
-exponents of the Block2 requests the client emits never grow: a block larger than requested is
-refused (`Misbehaves.szxGrows`), a smaller one is followed, and the client's own maximum caps the
-first one. -/
+/-- **C05 (success means the upload was completed).** Against ANY response sequence: when the
+request yields a response with a SUCCESSFUL code, the final Block1 request was emitted — a
+truncated upload is never reported as success. The one way around it is the single-response
+exemption of `C05_ok_is_server_body`, stated exactly: the server failed the upload with an
+unsuccessful response `e` to a non-final block, `e` itself was the first block of a block-wise
+(error) body, and a LATER response `r` came without a Block2 option; the result is exactly that
+`r`, alone (`SingleResponse`). -/
+theorem C05_success_upload_complete (cfg : Cfg) (h6 : cfg.szx0 ≤ 6) (resps : List Resp) (o : Body)
+    (hok : (runClient cfg resps).2 = .ok o) (hsucc : isSuccessful o.code = true) :
+    (∃ r ∈ block1Requests cfg resps, FinalReq r) ∨
+    (∃ pre e suf st cur, resps = pre ++ e :: suf ∧
+      phaseAfter cfg (start cfg) pre = .b1 st cur ∧ (sentBlock1 st cur).more = true ∧
+      EndsUploadEarly e ∧ SingleResponse suf o) := by
+  rcases C05_ok_upload_complete cfg h6 resps o hok with h | ⟨pre, e, suf, st, cur, h1, h2, h3, h4, h5⟩
+  · exact Or.inl h
+  · right
+    refine ⟨pre, e, suf, st, cur, h1, h2, h3, h4, ?_⟩
+    unfold runClient at hok
+    rw [h1, go_outcome_append, h2, go_cons, h5] at hok
+    rcases completeBlock2_ok_code cfg cur e suf o hok with hc | hs
+    · have := h4.unsuccessful
+      rw [← hc, hsucc] at this
+      cases this
+    · exact hs
+
+/-- **C05 (request body intact whenever SUCCESS is returned).** If the request yields a response
+with a successful code and the server's unsuccessful responses are not themselves the first
+block of a block-wise body (no unsuccessful response carries a Block2 option with the more flag),
+the reference reassembly of the emitted Block1 requests is exactly the payload handed to the API —
+whatever else the server does. -/
+theorem C05_success_request_body_intact (cfg : Cfg) (h6 : cfg.szx0 ≤ 6) (resps : List Resp)
+    (o : Body) (hok : (runClient cfg resps).2 = .ok o) (hsucc : isSuccessful o.code = true)
+    (herr : ∀ r ∈ resps, isSuccessful r.code = false → ∀ b, r.block2 = some b → b.more = false) :
+    reassemble (block1Requests cfg resps) = some cfg.payload := by
+  rcases C05_ok_upload_complete cfg h6 resps o hok with h | ⟨pre, e, suf, st, cur, h1, h2, _, h4, h5⟩
+  · exact C05_block1_reassembles cfg h6 resps h
+  · exfalso
+    have hun := h4.unsuccessful
+    have hmem : e ∈ resps := by rw [h1]; simp
+    unfold runClient at hok
+    rw [h1, go_outcome_append, h2, go_cons, h5] at hok
+    rcases completeBlock2_nomore cfg cur e (herr e hmem hun) with hc | ⟨err, hc⟩
+    · rw [hc] at hok
+      simp only [go_done, Outcome.ok.injEq] at hok
+      rw [← hok] at hsucc
+      simp only [bodyOf] at hsucc
+      rw [hsucc] at hun
+      cases hun
+    · rw [hc] at hok
+      simp at hok
+
+/-- **C05 (size exponent never grows, Block2 options of the requests).** Against ANY response
+sequence the size exponents of the Block2 options the client puts on the wire never grow — over
+ALL its requests: the application's size hint `block2=(0, False, szx)` on the request(s) of the
+upload phase (when the request handed to the API carries one), then the requests of the Block2
+loop. A first block larger than the hint asked for is refused (`Misbehaves.firstBlockLarger`;
+false before the fix: hint 3, first block at exponent 6 → requests at 3, 6, 6), a later block
+larger than requested is refused (`Misbehaves.szxGrows`), a smaller one is followed, and the
+client's own maximum caps the first request of the Block2 loop. -/
 theorem C05_block2_szx_never_grows (cfg : Cfg) (h6 : cfg.szx0 ≤ 6) (resps : List Resp) :
     List.Pairwise (fun a b : BlockOpt => b.szx ≤ a.szx)
       ((runClient cfg resps).1.filterMap (·.block2)) :=
   b2_pairwise_go (PhaseOk.start h6) resps
+
+/-- **C05 (never larger blocks than the application asked for).** With a size hint `h` in the
+request handed to the API, every Block2 option the client ever puts on the wire has an exponent
+≤ `h` — against ANY response sequence. -/
+theorem C05_block2_szx_below_hint (cfg : Cfg) (h6 : cfg.szx0 ≤ 6) (resps : List Resp) (h : Nat)
+    (hh : cfg.hint2 = some h) :
+    ∀ b ∈ (runClient cfg resps).1.filterMap (·.block2), b.szx ≤ h := by
+  obtain ⟨cur, _, h2⟩ := enterB1_of_inv (B1Inv.start h6)
+  have hb := (b2_pairwise_bound_go (PhaseOk.start h6) resps).2
+    (by rw [show start cfg = .b1 { szx := cfg.szx0, cursor := 0 } cur from h2]; trivial)
+    ⟨0, false, h⟩ (by simp [hintOpt, hh])
+  exact hb
 
 -- non-vacuity and sanity ----------------------------------------------------------------------------
 
@@ -476,19 +571,71 @@ example :
        ⟨132, none, some ⟨1, false, 0⟩, none, [105, 116]⟩]).2 = .error .unexpectedBlock2 := by decide
 
 /-- the inputs fixed in the third round. (1) 48 bytes at szx 0 (3 blocks): a 2.31 WITHOUT Block1
-option after block 0 is an error (it was handed out as the result); a 2.04 without the option is
-the tolerated "server ignored Block1" case: that answer is the result and no further block is sent
-— `EndsUploadEarly` is inhabited on a reachable state. -/
+option after block 0 is an error (it was handed out as the result). -/
 example :
     runClient { payload := List.range 48, szx0 := 0, maxPayload := 1124 }
       [⟨95, none, none, none, []⟩]
     = ([⟨some ⟨0, true, 0⟩, none, some 48, List.range 16⟩], .error .unexpectedBlock1) := by decide
+/-- the inputs fixed in the fourth round. (N2) a 2.04 without the option after block 0 or after the
+middle block — formerly the tolerated "server ignored Block1" case: success reported after 16 of
+48 bytes — is an error; after the LAST block it is the result (the whole body was sent), and so
+it is in answer to a request that fits into one message; a 4.08 without the option after block 0
+is passed on as the (failed) result and no further block is sent — `EndsUploadEarly` is inhabited
+on a reachable state, `Misbehaves.successWithoutBlock1` too. -/
 example :
     runClient { payload := List.range 48, szx0 := 0, maxPayload := 1124 }
       [⟨68, none, none, none, [1]⟩]
-    = ([⟨some ⟨0, true, 0⟩, none, some 48, List.range 16⟩], .ok ⟨68, none, [1]⟩) := by decide
-example : EndsUploadEarly ⟨68, none, none, none, [1]⟩ := .ignoredBlock1 rfl (by decide)
+    = ([⟨some ⟨0, true, 0⟩, none, some 48, List.range 16⟩], .error .unexpectedBlock1) := by decide
+example :
+    (runClient { payload := List.range 48, szx0 := 0, maxPayload := 1124 }
+      [⟨95, some ⟨0, true, 0⟩, none, none, []⟩, ⟨65, none, none, none, []⟩]).2
+    = .error .unexpectedBlock1 := by decide
+example :
+    (runClient { payload := List.range 48, szx0 := 0, maxPayload := 1124 }
+      [⟨95, some ⟨0, true, 0⟩, none, none, []⟩, ⟨95, some ⟨1, true, 0⟩, none, none, []⟩,
+       ⟨68, none, none, none, [1]⟩]).2 = .ok ⟨68, none, [1]⟩ := by decide
+example :
+    (runClient { payload := List.range 16, szx0 := 0, maxPayload := 1124 }
+      [⟨68, none, none, none, [1]⟩]).2 = .ok ⟨68, none, [1]⟩ := by decide
+example :
+    runClient { payload := List.range 48, szx0 := 0, maxPayload := 1124 }
+      [⟨136, none, none, none, [1]⟩]
+    = ([⟨some ⟨0, true, 0⟩, none, some 48, List.range 16⟩], .ok ⟨136, none, [1]⟩) := by decide
+example : EndsUploadEarly ⟨136, none, none, none, [1]⟩ := .ignoredBlock1 rfl (by decide)
 example : EndsUploadEarly ⟨136, some ⟨0, false, 0⟩, none, none, []⟩ := .failed rfl rfl (by decide)
+example :
+    Misbehaves { payload := List.range 48, szx0 := 0, maxPayload := 1124 }
+      (.b1 ⟨0, 0⟩ ⟨some ⟨0, true, 0⟩, none, some 48, List.range 16⟩) ⟨68, none, none, none, [1]⟩ :=
+  .successWithoutBlock1 rfl (by decide) (by decide)
+/-- (N1) a GET with the size hint `block2=(0, False, 0)` (16-byte blocks): the hint is on the first
+request; a first block of exponent 2 is refused (the requests would have gone 0, 2, 2); an honest
+server is followed at exponent 0, and one that answers in the hinted size is fine. -/
+example :
+    runClient { payload := [], szx0 := 6, maxPayload := 1124, hint2 := some 0 }
+      [⟨69, none, some ⟨0, true, 2⟩, none, List.range 64⟩]
+    = ([⟨none, some ⟨0, false, 0⟩, none, []⟩], .error .unexpectedBlock2) := by decide
+example :
+    runClient { payload := [], szx0 := 6, maxPayload := 1124, hint2 := some 0 }
+      [⟨69, none, some ⟨0, false, 2⟩, none, List.range 20⟩]
+    = ([⟨none, some ⟨0, false, 0⟩, none, []⟩], .error .unexpectedBlock2) := by decide
+example :
+    runClient { payload := [], szx0 := 6, maxPayload := 1124, hint2 := some 0 }
+      [⟨69, none, some ⟨0, true, 0⟩, none, List.range 16⟩,
+       ⟨69, none, some ⟨1, false, 0⟩, none, [16, 17, 18, 19]⟩]
+    = ([⟨none, some ⟨0, false, 0⟩, none, []⟩, ⟨none, some ⟨1, false, 0⟩, none, []⟩],
+       .ok ⟨69, none, List.range 20⟩) := by decide
+/-- an upload with a hint: every Block1 request carries it; the closed loop with the reference
+server, which honours the hint, delivers both bodies -/
+example :
+    let run := transfer { payload := List.range 40, szx0 := 0, maxPayload := 1124, hint2 := some 1 }
+      (Srv.init (List.range 70) none 69) [⟨6, false⟩, ⟨6, false⟩, ⟨6, false⟩, ⟨6, false⟩, ⟨6, false⟩,
+        ⟨6, false⟩, ⟨6, false⟩]
+    run.outcome = .ok ⟨69, none, List.range 70⟩ ∧ run.srv.recorded = some (List.range 40) ∧
+    run.reqs.map (fun r => (r.block1, r.block2)) =
+      [(some ⟨0, true, 0⟩, some ⟨0, false, 1⟩), (some ⟨1, true, 0⟩, some ⟨0, false, 1⟩),
+       (some ⟨2, false, 0⟩, some ⟨0, false, 1⟩),
+       (none, some ⟨2, false, 0⟩), (none, some ⟨3, false, 0⟩), (none, some ⟨4, false, 0⟩)] := by
+  decide
 /-- (3) a download at szx 0 in which the server answers the request for block 4 (offset 64) with a
 64-byte block of szx 2: refused; the Block2 requests were 1, 2, 3, 4 at szx 0 -/
 example :
